@@ -23,7 +23,7 @@ RULE = ("random nestings (depth 1-4) of defn, defclass and let over the name poo
         "it or one declaration mixing target kinds (let / function / module), or an expected "
         "rejection; distinct by program text.")
 FLOOR = {"quick": 500, "thorough": 500}
-BUDGET = {"quick": 28, "thorough": 420}
+BUDGET = {"quick": 24, "thorough": 420}
 CASE_TIMEOUT = 20
 NEEDS_EVENTS = True
 ANCHORS = ["hy.scoping:ResolveOuterVars.visit_OuterVar", "hy.scoping:ScopeGlobal.define_nonlocal",
@@ -55,6 +55,24 @@ MANIFEST = {
 }
 
 POOL = ["a", "b", "c"]
+
+# Mechanisms found on the unchanged tree (attribution: see attribute() below).
+#
+# KEY_CLASSVAR  hy.scoping treats a class body like a function scope when it
+#   resolves names used in scopes nested in the class: ResolveOuterVars.visit_OuterVar
+#   (`isinstance(scope, ScopeFn): has = scope.defined`) and ScopeFn.__exit__ (a name
+#   that the class defines is not passed up).  Witnesses:
+#     (setv x 1) (defclass C [] (setv x 2) (defn m [] (nonlocal x) (setv x 3)))
+#        -> SyntaxError: no binding for nonlocal 'x' found (prescribed: global x)
+#     (let [a 4] (defclass C [] (global a) (setv a 7) (defn m [] a)))   ; (m) reads global a, not the let
+#   Repair: only function scopes contribute `defined` in visit_OuterVar; in
+#   ScopeFn.__exit__ a class scope passes up every reference that came from a nested
+#   scope (mark NodeRefs handed to a parent as `inherited`).
+# KEY_NESTED_USE  ScopeFn.define_nonlocal scans `self.seen`, which also holds the
+#   references passed up by nested functions that were compiled earlier:
+#     (setv x 1) (defn f [] (defn g [] x) (global x) (setv x 5))
+#        -> HySyntaxError: name 'x' is declared global after being used (CPython accepts the twin)
+#   Repair: skip `inherited` references in that scan.
 KEY_CLASSVAR = "class-scope-treated-as-enclosing"
 KEY_NESTED_USE = "declared-after-use-in-nested-function"
 
@@ -381,12 +399,6 @@ def max_depth(node, d=0):
         for v in node:
             best = max(best, max_depth(v, d))
     return best
-
-
-def features(mod):
-    """Input features of the two mechanisms found on the unchanged tree, and
-    normalised programs in which only that feature is removed."""
-    return {}
 
 
 def cases(seed, tier, shard, nshards):
@@ -782,5 +794,6 @@ def attribute(case, why):
         if m3 is not None:
             ok, _ = _agrees(m3)
             if ok:
-                return KEY_CLASSVAR + "+" + KEY_NESTED_USE
+                # needs both known mechanisms normalised away; reported under the first
+                return KEY_CLASSVAR
     return None
